@@ -697,8 +697,8 @@ def Table.nhValidity (t : Table) (nh : Nat) (reachable : Bool) : Table × Res :=
 
 /-! ## Deferral, dumps -/
 
-/-- `collect_loc_rib_paths_impl(family, max)` -/
-def Rib.collect (fam : Fam) (r : Rib) (max : Option Nat) : List Change :=
+/-- the body of `collect_loc_rib_paths_impl(family, max)` for a family whose route selection is not deferred -/
+def Rib.collectAll (fam : Fam) (r : Rib) (max : Option Nat) : List Change :=
   r.dests.filterMap fun (net, dst) =>
     let el := dst.entries.filter Entry.eligible
     let ps := match max with
@@ -706,6 +706,11 @@ def Rib.collect (fam : Fam) (r : Rib) (max : Option Nat) : List Change :=
       | none => el
     if ps.isEmpty then none
     else some { fam, net, destId := dst.id, best := true, any := true, replaced := none, paths := ps }
+
+/-- `collect_loc_rib_paths_impl(family, max)`: while route selection of the family is deferred nothing
+    has been selected yet, the Loc-RIB is empty until `end_deferral()` -/
+def Rib.collect (fam : Fam) (r : Rib) (max : Option Nat) : List Change :=
+  if r.deferring then [] else r.collectAll fam max
 
 def Table.startDeferral (t : Table) (fam : Fam) : Table :=
   t.setRib fam { t.rib fam with deferring := true }
